@@ -126,6 +126,10 @@ struct Spec {
     profile: bool,
     benches: Vec<BenchSpec>,
     groups: Vec<GroupSpec>,
+    /// `--exact`?
+    exact: bool,
+    /// (inclusive?, filter text): positional filters and `--skip` filters.
+    filters: Vec<(bool, String)>,
 }
 
 struct Toks<'a> {
@@ -210,6 +214,17 @@ fn parse_case(case: &str) -> Spec {
         parse_node(&mut t, "", &mut spec, &mut line);
     }
     assert!(spec.benches.len() + spec.groups.len() <= tables::N, "too many entries");
+    // optional: `X <e|r> <k> <+|-><name token>...` (filters passed on the command line);
+    // a following `D ...` section (what they remove, for the model) is not read here.
+    if t.i < t.t.len() && t.t[t.i] == "X" {
+        t.next();
+        spec.exact = t.next() == "e";
+        let k: usize = t.next().parse().unwrap();
+        for _ in 0..k {
+            let f = t.next();
+            spec.filters.push((&f[..1] == "+", pct_decode(&f[1..])));
+        }
+    }
     spec
 }
 
@@ -474,6 +489,26 @@ fn run_case(case: &str) -> String {
         _ => return "crash bad-action".into(),
     }
     cmd.args(["--sort", "location"]);
+    let spec = match std::panic::catch_unwind(|| parse_case(case)) {
+        Ok(s) => s,
+        Err(_) => return "crash bad-case".into(),
+    };
+    if spec.exact {
+        cmd.arg("--exact");
+    }
+    for (inc, f) in &spec.filters {
+        if !*inc {
+            cmd.arg(format!("--skip={f}"));
+        }
+    }
+    if spec.filters.iter().any(|(inc, _)| *inc) {
+        cmd.arg("--");
+        for (inc, f) in &spec.filters {
+            if *inc {
+                cmd.arg(f);
+            }
+        }
+    }
     cmd.env("HX_PAINT_SPEC", case);
     cmd.env_remove("NEXTEST");
     for k in ["DIVAN_THREADS", "DIVAN_SAMPLE_COUNT", "DIVAN_SAMPLE_SIZE", "DIVAN_MIN_TIME", "DIVAN_MAX_TIME", "DIVAN_BYTES_FORMAT",
